@@ -10,8 +10,17 @@ TINY = {"cfgs": [{"throttle": 1, "attempts": 1, "dry": False}, {"throttle": 2, "
         "limit_quick": 1500, "limit_thorough": 15000}
 
 
+def _e2e(ck):
+    # the throttle given on the command line must be the bound the engine enforces: parameterised studies
+    # through the literal `maestro run -fg -t T -a A -r R` with the scripted scheduler (harness/e2e.py)
+    import random
+    from harness import e2e
+    e2e.check_config(ck, e2e.config_cases(random.Random(ck.seed * 977 + 3), 10 if ck.tier != "thorough" else 150,
+                                          "throttle"), 3)
+
+
 def run(ck):
-    return X.run_exec(ck, 3, BIAS, tiny=TINY)
+    return X.run_exec(ck, 3, BIAS, tiny=TINY, extra=_e2e)
 
 
 def replay(ck, path):
